@@ -13,10 +13,14 @@
 //!   `<Line as Cell>::truncate` and `Filled<Line>::truncate`.
 //!
 //! Non-termination is detected deterministically: a counting global allocator (this binary only)
-//! aborts the worker when one call under test performs more than `BUDGET` heap allocations (a
-//! terminating call on these inputs needs a few dozen); the abort is attributed to the item by
-//! the process driver. The wall-clock watchdog of the driver stays armed as a backstop for a loop
-//! that does not allocate. `--replay` re-executes the single item with a 1000× larger budget.
+//! watches every call under test; a call that performs more than `BUDGET` heap allocations (a
+//! terminating call on these inputs needs a few dozen) is declared non-terminating. Line calls
+//! run on a runner thread inside the worker: when the budget is exceeded the allocator parks that
+//! thread for good and the worker carries on with a fresh runner (a worker process is expensive to
+//! restart and thousands of lines loop). Cell calls run inline: exceeding the budget exits the
+//! worker with a code naming the entry point, which the process driver attributes to the item.
+//! The driver's wall-clock watchdog stays armed as a backstop for a loop that does not allocate.
+//! `--replay` re-executes the single item with a 1000× larger budget.
 //!
 //! Attribution rule for fingerprints: the wrappers delegate to `str::truncate` /
 //! `Line::truncate`; a wrapper gets a fingerprint of its own only when it fails on an input on
@@ -29,7 +33,10 @@ use radicle_term::{Color, Filled, Label, Line, Paint};
 use serde_json::{json, Value};
 use std::alloc::{GlobalAlloc, Layout, System};
 use std::io::Write as _;
+use std::cell::Cell as StdCell;
 use std::sync::atomic::{AtomicBool, AtomicU64, AtomicUsize, Ordering};
+use std::sync::mpsc;
+use std::sync::Mutex;
 use std::time::Duration;
 
 // ---------------------------------------------------------------------------------------------
@@ -51,25 +58,48 @@ const STAGES: [&str; 11] = [
 const MARKER: &str = "C26-ALLOC-BUDGET-EXCEEDED stage=";
 const BUDGET: u64 = 20_000;
 
-static ARMED: AtomicBool = AtomicBool::new(false);
-static COUNT: AtomicU64 = AtomicU64::new(0);
 static LIMIT: AtomicU64 = AtomicU64::new(BUDGET);
 static STAGE: AtomicUsize = AtomicUsize::new(0);
+/// Set by a runner thread whose call exceeded the budget (it then parks forever).
+static EXCEEDED: AtomicBool = AtomicBool::new(false);
+const EXIT_BASE: i32 = 100;
+
+thread_local! {
+    static ARMED: StdCell<bool> = const { StdCell::new(false) };
+    static COUNT: StdCell<u64> = const { StdCell::new(0) };
+    /// Runner threads park on an exceeded budget; any other thread exits the process.
+    static PARK: StdCell<bool> = const { StdCell::new(false) };
+}
 
 struct Budget;
 
 #[inline]
 fn tick() {
-    if ARMED.load(Ordering::Relaxed) && COUNT.fetch_add(1, Ordering::Relaxed) >= LIMIT.load(Ordering::Relaxed) {
-        ARMED.store(false, Ordering::Relaxed);
-        let stage = STAGES.get(STAGE.load(Ordering::Relaxed)).copied().unwrap_or("?");
-        let mut err = std::io::stderr();
-        let _ = err.write_all(b"\n");
-        let _ = err.write_all(MARKER.as_bytes());
-        let _ = err.write_all(stage.as_bytes());
-        let _ = err.write_all(b";\n");
-        std::process::abort();
+    if !ARMED.try_with(|a| a.get()).unwrap_or(false) {
+        return;
     }
+    let c = COUNT.try_with(|c| {
+        let v = c.get() + 1;
+        c.set(v);
+        v
+    })
+    .unwrap_or(0);
+    if c <= LIMIT.load(Ordering::Relaxed) {
+        return;
+    }
+    let _ = ARMED.try_with(|a| a.set(false));
+    if PARK.try_with(|p| p.get()).unwrap_or(false) {
+        EXCEEDED.store(true, Ordering::SeqCst);
+        loop {
+            std::thread::sleep(Duration::from_secs(3600));
+        }
+    }
+    let stage = STAGE.load(Ordering::Relaxed);
+    let mut err = std::io::stderr();
+    let _ = err.write_all(MARKER.as_bytes());
+    let _ = err.write_all(STAGES.get(stage).copied().unwrap_or("?").as_bytes());
+    let _ = err.write_all(b";\n");
+    std::process::exit(EXIT_BASE + stage as i32);
 }
 
 unsafe impl GlobalAlloc for Budget {
@@ -96,8 +126,7 @@ static GLOBAL: Budget = Budget;
 struct Disarm;
 impl Drop for Disarm {
     fn drop(&mut self) {
-        ARMED.store(false, Ordering::Relaxed);
-        STAGE.store(0, Ordering::Relaxed);
+        ARMED.with(|a| a.set(false));
     }
 }
 
@@ -106,8 +135,8 @@ fn guarded<T>(stage: usize, f: impl FnOnce() -> T) -> Result<T, mcx::panics::Cau
     mcx::panics::catch(|| {
         let _d = Disarm;
         STAGE.store(stage, Ordering::Relaxed);
-        COUNT.store(0, Ordering::Relaxed);
-        ARMED.store(true, Ordering::Relaxed);
+        COUNT.with(|c| c.set(0));
+        ARMED.with(|a| a.set(true));
         f()
     })
 }
@@ -290,27 +319,103 @@ fn line_text(line: &Line) -> (usize, Vec<String>) {
     (w, labels)
 }
 
-fn eval_line(labels: &[String], w: usize, d: &str, cost: u64) -> ItemOut {
-    let line = mk_line(labels);
-    let total = Line::width(&line);
-    let esc_labels: Vec<String> = labels.iter().map(|l| esc(l)).collect();
-    let wit = |extra: Value| json!({"family": "line", "labels": labels, "labels_escaped": esc_labels, "width": w, "delim": d, "detail": extra});
-    let mut res: Vec<(&'static str, Result<(usize, Vec<String>), String>)> = vec![];
-    res.push((
-        STAGES[8],
-        guarded(8, || {
+fn show_labels(labels: &[String]) -> String {
+    format!("[{}]", labels.iter().map(|l| format!("\"{}\"", esc(l))).collect::<Vec<_>>().join(", "))
+}
+
+struct Job {
+    labels: Vec<String>,
+    w: usize,
+    d: String,
+}
+/// Ok((Line::width of the result, label contents of the result)) or the panic site.
+type LineRes = Result<(usize, Vec<String>), String>;
+
+struct Runner {
+    tx: mpsc::Sender<Job>,
+    rx: mpsc::Receiver<(usize, LineRes)>,
+}
+static RUNNER: Mutex<Option<Runner>> = Mutex::new(None);
+
+fn runner_main(jobs: mpsc::Receiver<Job>, out: mpsc::Sender<(usize, LineRes)>) {
+    PARK.with(|p| p.set(true));
+    while let Ok(Job { labels, w, d }) = jobs.recv() {
+        let line = mk_line(&labels);
+        let d = d.as_str();
+        let r = guarded(8, || {
             let mut l = line.clone();
             Line::truncate(&mut l, w, d);
             l
-        })
-        .map(|l| line_text(&l))
-        .map_err(|c| site_of(&c)),
-    ));
-    res.push((STAGES[9], guarded(9, || <Line as Cell>::truncate(&line, w, d)).map(|l| line_text(&l)).map_err(|c| site_of(&c))));
-    let filled = Filled { item: line.clone(), color: Color::Unset };
-    res.push((STAGES[10], guarded(10, || Cell::truncate(&filled, w, d)).map(|l: Line| line_text(&l)).map_err(|c| site_of(&c))));
+        });
+        let _ = out.send((8, r.map(|l| line_text(&l)).map_err(|c| site_of(&c))));
+        let r = guarded(9, || <Line as Cell>::truncate(&line, w, d));
+        let _ = out.send((9, r.map(|l| line_text(&l)).map_err(|c| site_of(&c))));
+        let filled = Filled { item: line.clone(), color: Color::Unset };
+        let r = guarded(10, || Cell::truncate(&filled, w, d));
+        let _ = out.send((10, r.map(|l: Line| line_text(&l)).map_err(|c| site_of(&c))));
+    }
+}
+
+/// The three line entry points on the runner thread. Returns the results that arrived and, if a
+/// call exceeded the allocation budget, the stage that did (its thread is abandoned, parked).
+fn run_line(labels: &[String], w: usize, d: &str) -> (Vec<(usize, LineRes)>, Option<usize>) {
+    let mut guard = RUNNER.lock().unwrap();
+    if guard.is_none() {
+        let (jtx, jrx) = mpsc::channel();
+        let (rtx, rrx) = mpsc::channel();
+        std::thread::Builder::new()
+            .name("c26-runner".into())
+            .stack_size(512 << 10)
+            .spawn(move || runner_main(jrx, rtx))
+            .unwrap_or_else(|e| mcx::report::machinery(&format!("cannot spawn runner thread: {e}")));
+        *guard = Some(Runner { tx: jtx, rx: rrx });
+    }
+    let r = guard.as_ref().unwrap();
+    if r.tx.send(Job { labels: labels.to_vec(), w, d: d.to_string() }).is_err() {
+        mcx::report::machinery("runner thread is gone");
+    }
+    let mut out = vec![];
+    loop {
+        match r.rx.recv_timeout(Duration::from_millis(1)) {
+            Ok(m) => {
+                out.push(m);
+                if out.len() == 3 {
+                    return (out, None);
+                }
+            }
+            Err(mpsc::RecvTimeoutError::Timeout) => {
+                if EXCEEDED.swap(false, Ordering::SeqCst) {
+                    let stage = STAGE.load(Ordering::Relaxed);
+                    *guard = None; // the parked thread never comes back
+                    return (out, Some(stage));
+                }
+            }
+            Err(mpsc::RecvTimeoutError::Disconnected) => mcx::report::machinery("runner thread died"),
+        }
+    }
+}
+
+fn eval_line(labels: &[String], w: usize, d: &str, cost: u64) -> ItemOut {
+    let total = Line::width(&mk_line(labels));
+    let shown = show_labels(labels);
+    let esc_labels: Vec<String> = labels.iter().map(|l| esc(l)).collect();
+    let wit = |extra: Value| json!({"family": "line", "labels": labels, "labels_escaped": esc_labels, "width": w, "delim": d, "detail": extra});
+    let (raw, hung) = run_line(labels, w, d);
+    let res: Vec<(&'static str, LineRes)> = raw.into_iter().map(|(st, r)| (STAGES[st], r)).collect();
 
     let mut vs = vec![];
+    if let Some(stage) = hung {
+        let name = STAGES[stage];
+        let budget = LIMIT.load(Ordering::Relaxed);
+        vs.push(
+            Violation::new(
+                format!("C26/hang/{name}"),
+                format!("{name} on the line {shown} (width {w}, delim \"{}\") did not return within {budget} heap allocations (terminating calls on this space need < 100): its loop makes no progress", esc(d)),
+                wit(json!({"entry_point": name, "allocation_budget": budget})),
+            )
+            .cost(cost),
+        );
+    }
     let mut sites: Vec<(String, Vec<&str>)> = vec![];
     for (entry, out) in &res {
         if let Err(site) = out {
@@ -324,13 +429,13 @@ fn eval_line(labels: &[String], w: usize, d: &str, cost: u64) -> ItemOut {
         vs.push(
             Violation::new(
                 format!("C26/panic@{site}"),
-                format!("truncating the line {esc_labels:?} to width {w} with delim \"{}\" panics at {site} (entry points: {})", esc(d), entries.join(", ")),
+                format!("truncating the line {shown} to width {w} with delim \"{}\" panics at {site} (entry points: {})", esc(d), entries.join(", ")),
                 wit(json!({"entry_points": entries})),
             )
             .cost(cost),
         );
     }
-    let inner_exceeds = matches!(&res[0].1, Ok((rw, _)) if *rw > w);
+    let inner_exceeds = matches!(res.first(), Some((_, Ok((rw, _)))) if *rw > w);
     for (k, (entry, out)) in res.iter().enumerate() {
         if let Ok((rw, out_labels)) = out {
             let text: String = out_labels.concat();
@@ -338,7 +443,7 @@ fn eval_line(labels: &[String], w: usize, d: &str, cost: u64) -> ItemOut {
                 vs.push(
                     Violation::new(
                         format!("C26/width-exceeded/{entry}"),
-                        format!("{entry} of {esc_labels:?} to width {w} (delim \"{}\") = \"{}\" has width {rw} > {w}", esc(d), esc(&text)),
+                        format!("{entry} of {shown} to width {w} (delim \"{}\") = \"{}\" has width {rw} > {w}", esc(d), esc(&text)),
                         wit(json!({"entry_point": entry, "result_labels": out_labels, "result_width": rw})),
                     )
                     .cost(cost),
@@ -348,7 +453,7 @@ fn eval_line(labels: &[String], w: usize, d: &str, cost: u64) -> ItemOut {
                 vs.push(
                     Violation::new(
                         format!("C26/width-exceeded/{entry}(concatenated)"),
-                        format!("{entry} of {esc_labels:?} to width {w} (delim \"{}\") prints \"{}\" whose display width is {} > {w} (label widths add up to {rw})", esc(d), esc(&text), Cell::width(text.as_str())),
+                        format!("{entry} of {shown} to width {w} (delim \"{}\") prints \"{}\" whose display width is {} > {w} (label widths add up to {rw})", esc(d), esc(&text), Cell::width(text.as_str())),
                         wit(json!({"entry_point": entry, "result_labels": out_labels, "result_width": rw, "printed_width": Cell::width(text.as_str())})),
                     )
                     .cost(cost),
@@ -356,19 +461,21 @@ fn eval_line(labels: &[String], w: usize, d: &str, cost: u64) -> ItemOut {
             }
         }
     }
-    let outcome = match &res[0].1 {
-        Err(_) => "line:panic".to_string(),
-        Ok((rw, out_labels)) => {
+    let outcome = match res.first() {
+        None => format!("line[{}]:HANG", labels.len()),
+        Some((_, Err(_))) => format!("line[{}]:panic", labels.len()),
+        Some((_, Ok((rw, out_labels)))) => {
+            let is_prefix = out_labels.len() <= labels.len() && out_labels.iter().zip(labels).all(|(a, b)| a == b);
             let kind = if total <= w {
                 "fits"
-            } else if out_labels.len() < labels.len() && out_labels.last().map_or(true, |l| labels.get(out_labels.len() - 1) == Some(l)) {
+            } else if is_prefix {
                 "popped-only"
             } else if out_labels.len() < labels.len() {
                 "popped+cut"
             } else {
                 "cut-last"
             };
-            format!("line[{}]:{kind}{}", labels.len(), if *rw > w { ":EXCEEDS" } else { "" })
+            format!("line[{}]:{kind}{}{}", labels.len(), if *rw > w { ":EXCEEDS" } else { "" }, if hung.is_some() { ":wrapper-HANG" } else { "" })
         }
     };
     let class = if total > w { mcx::fnv64(format!("l/{labels:?}/{w}/{d}").as_bytes()) | 1 } else { 0 };
@@ -378,8 +485,13 @@ fn eval_line(labels: &[String], w: usize, d: &str, cost: u64) -> ItemOut {
 // ---------------------------------------------------------------------------------------------
 
 fn crash_violation(wit: Value, what_input: String, crash: Crash, tail: &str, budget: u64, cost: u64) -> Violation {
-    if let Some(pos) = tail.find(MARKER) {
-        let stage = tail[pos + MARKER.len()..].split(';').next().unwrap_or("?").to_string();
+    // budget exceeded on a non-runner thread: the worker exited with a code naming the stage
+    let by_code = match crash {
+        Crash::Abort { code: Some(c), .. } if c >= EXIT_BASE && ((c - EXIT_BASE) as usize) < STAGES.len() => Some(STAGES[(c - EXIT_BASE) as usize].to_string()),
+        _ => None,
+    };
+    let by_marker = tail.find(MARKER).map(|pos| tail[pos + MARKER.len()..].split(';').next().unwrap_or("?").to_string());
+    if let Some(stage) = by_code.or(by_marker) {
         return Violation::new(
             format!("C26/hang/{stage}"),
             format!("{stage} on {what_input} did not return within {budget} heap allocations (terminating calls on this space need < 100): the loop makes no progress"),
@@ -404,7 +516,7 @@ fn crash_violation(wit: Value, what_input: String, crash: Crash, tail: &str, bud
 }
 
 fn opts(chunk: Option<u64>) -> ProcOpts {
-    ProcOpts { chunk_timeout: Duration::from_secs(60), item_timeout: Duration::from_secs(10), chunk }
+    ProcOpts { chunk_timeout: Duration::from_secs(600), item_timeout: Duration::from_secs(180), chunk }
 }
 
 fn cell_family(len: usize) -> Stats {
@@ -449,10 +561,10 @@ fn line_family(space: &LineSpace) -> Stats {
     sweep::procs(
         "line",
         rx.size(),
-        opts(Some(64)),
+        opts(None),
         |i| {
             let (labels, w, d) = decode(i);
-            eval_line(&labels, w, d, i)
+            eval_line(&labels, w, d, (1 << 40) | i)
         },
         Some(|i: u64, c: &mcx::panics::Caught| {
             let (labels, w, d) = decode(i);
@@ -463,11 +575,11 @@ fn line_family(space: &LineSpace) -> Stats {
             let e: Vec<String> = labels.iter().map(|l| esc(l)).collect();
             crash_violation(
                 json!({"family": "line", "labels": labels, "labels_escaped": e, "width": w, "delim": d}),
-                format!("the line {e:?} (width {w}, delim \"{}\")", esc(d)),
+                format!("the line {} (width {w}, delim \"{}\")", show_labels(&labels), esc(d)),
                 crash,
                 tail,
                 BUDGET,
-                i,
+                (1 << 40) | i,
             )
         },
     )
@@ -488,7 +600,7 @@ fn replay(w: &Value) -> Vec<Violation> {
     let st = sweep::procs(
         "replay",
         1,
-        ProcOpts { chunk_timeout: Duration::from_secs(120), item_timeout: Duration::from_secs(120), chunk: Some(1) },
+        ProcOpts { chunk_timeout: Duration::from_secs(600), item_timeout: Duration::from_secs(600), chunk: Some(1) },
         |_| if fam == "cell" { eval_cell(&input, width, &delim, 0) } else { eval_line(&labels, width, &delim, 0) },
         Some(|_: u64, c: &mcx::panics::Caught| Violation::new(format!("C26/panic@{}", site_of(c)), c.message.clone(), w.clone())),
         |_, crash, tail: &str| crash_violation(w.clone(), "the replayed input".to_string(), crash, tail, big, 0),
@@ -507,15 +619,11 @@ fn main() {
 
     let mut st = Stats::default();
     let t0 = std::time::Instant::now();
-    if std::env::var("C26_ONLY").map_or(true, |v| v == "cell") {
-        st.merge(cell_family(len));
-    }
+    st.merge(cell_family(len));
     let cell_items = st.n;
     let cell_wall = t0.elapsed().as_secs_f64();
-    if std::env::var("C26_ONLY").map_or(true, |v| v == "line") {
-        st.merge(line_family(&space));
-    }
-    eprintln!("cell {:.1}s line {:.1}s", cell_wall, t0.elapsed().as_secs_f64() - cell_wall);
+    st.merge(line_family(&space));
+    let line_wall = t0.elapsed().as_secs_f64() - cell_wall;
 
     let samples = vec![
         json!({"family": "cell", "input_escaped": esc(&string_at(len, n_strings(len) / 3)), "width": 3, "delim": "…"}),
@@ -534,6 +642,7 @@ fn main() {
     cov.insert("widths".into(), json!("0..=8"));
     cov.insert("max_string_len".into(), json!(len));
     cov.insert("cell_items".into(), json!(cell_items));
+    cov.insert("family_wall_s".into(), json!({"cell": (cell_wall * 10.0).round() / 10.0, "line": (line_wall * 10.0).round() / 10.0}));
     cov.insert("line_space".into(), json!(space.parts.iter().map(|(k, l)| json!({"labels": k, "max_label_len": l, "lines": LineSpace::part_size(*k, *l)})).collect::<Vec<_>>()));
     cov.insert("allocation_budget_per_call".into(), json!(BUDGET));
     cov.insert("crashed_items".into(), json!(st.crashed_items.len()));
@@ -542,7 +651,7 @@ fn main() {
         cov,
         &[
             "display width is measured with the crate's own Cell::width / Line::width (the property's observation point)",
-            "non-termination = more than 20000 heap allocations inside one truncate call (each iteration of Line::truncate's loop that cuts a label allocates); wall-clock watchdog as backstop",
+            "non-termination = more than 20000 heap allocations inside one truncate call (each iteration of Line::truncate's loop that cuts a label allocates; replay confirms with 20,000,000); wall-clock watchdog as backstop",
             "the design's 'lines of 1-3 such labels' is bounded to label lengths (3|4, 2, 1) for (1, 2, 3) labels",
             "Table / TextArea rendering (which call Line::truncate / str::truncate internally) are not driven",
         ],
